@@ -260,7 +260,7 @@ func Record(seed int64, n int, out string) (int, error) {
 			if i == ncalls-1 && r.Intn(4) == 0 {
 				args = args[:len(args)-1] // too few arguments: a run-time error ends the run (last call only)
 			}
-			calls = append(calls, call{fmt: it.f, args: args})
+			calls = append(calls, call{fmt: it.f, args: args, cf: cur.cf})
 		}
 		b := &binding{prov: prov}
 		cfg := &interp.Config{Chars: chars}
@@ -292,7 +292,8 @@ func Record(seed int64, n int, out string) (int, error) {
 		outs = outs[:len(outs)-1]
 		emit(map[string]any{"ev": "reset"})
 		for i, c := range calls {
-			ev := map[string]any{"ev": "step", "fmt": hx.FromBytes(c.fmt), "args": c.args, "chars": chars, "k": i + 1}
+			// cf: the CONVFMT in force (a print statement before the call may have changed it; %s of a number uses it)
+			ev := map[string]any{"ev": "step", "fmt": hx.FromBytes(c.fmt), "args": c.args, "chars": chars, "cf": hx.FromBytes(c.cf), "k": i + 1}
 			if c.print {
 				ev = map[string]any{"ev": "print", "args": c.args, "of": hx.FromBytes(c.of), "cf": hx.FromBytes(c.cf), "mode": mode,
 					"ofs": hx.FromBytes(c.ofs), "k": i + 1}
